@@ -127,7 +127,10 @@ StepDerive(os, ln) ==
     [] ob.kind = "ImmutableMultiDict" ->
          IF how = "copy_copy" THEN [os |-> os, rets |-> <<RSelf>>]
          ELSE IF how \in {"copy", "ctor"} THEN [os |-> Append(os, Obj("MultiDict", ob.st, <<>>)), rets |-> DerivedOK(2)]
-         ELSE [os |-> Append(os, Obj("ImmutableMultiDict", ob.st, <<>>)), rets |-> DerivedOK(1)]
+         ELSE \* deepcopy goes through to_dict(flat=False) and pickle through items(multi=True): neither carries an
+              \* entry whose value list is empty (the either-view corner), ImmutableMultiDict(x) does
+              [os |-> Append(os, Obj("ImmutableMultiDict", IF how \in {"deepcopy", "deepcopy_m", "pickle"} THEN Purge(ob.st) ELSE ob.st, <<>>)),
+               rets |-> IF HasEmpty(ob.st) THEN <<RInts(<<1, 1>>), RInts(<<0, 1>>)>> ELSE DerivedOK(1)]
     [] ob.kind = "CombinedMultiDict" ->
          IF how \in {"copy", "copy_copy", "ctor"}
          THEN [os |-> Append(os, Obj("MultiDict", CmState(DOf(os, ob)), <<>>)),
